@@ -2,7 +2,6 @@
 namespace Aplang.Gen
 /-- (file, macro or call) -/
 def outputSites : List (String × String) := [
-  ("lexer/lexer.rs", "eprintln!"),
   ("lib.rs", "println!"),
   ("main.rs", "eprintln!"),
   ("main.rs", "eprintln!"),
